@@ -24,6 +24,8 @@
           enabled in the model (else: lost wake-up), at "Pending" the model
           must not have the response ready, at "End" (everything completed and
           polled) no request may be unresolved (hang).
+          Zero-byte iops (zero-length ranges) never reach the driver's store:
+          their Pop + Complete are inferred as silent steps (SilentStep below).
    After the first rejected event of a scenario the rest of it is skipped.   *)
 EXTENDS IoSched, IOUtils
 
@@ -39,7 +41,7 @@ tvars == <<cap, bud, rstate, istate, flight, iopsAvail, bytesAvail, prios, close
 Keys == {"univ", "req", "end", "good", "sampled", "agree", "readsagree", "nontrivial",
          "Begin", "Submit", "Issue", "Idle", "Complete", "Resolved", "Pending", "Close", "Abandon",
          "Drain", "End", "ok", "err", "sc_bypass", "sc_blocked", "sc_close", "sc_cancel",
-         "sc_partial", "skipped", "unknown"}
+         "sc_partial", "skipped", "unknown", "Silent", "sc_zero", "sc_fuzzy", "sc_zerobypass"}
 Bump(c, k) == [c EXCEPT ![k] = @ + 1]
 RECURSIVE BumpAll(_, _)
 BumpAll(c, S) == IF S = {} THEN c ELSE LET k == CHOOSE x \in S : TRUE IN BumpAll(Bump(c, k), S \ {k})
@@ -85,9 +87,10 @@ ReqJudge(e) ==
 (***************************************************************************)
 (* concurrent family                                                        *)
 (***************************************************************************)
-CodeOfReq(q) == LET sz == q[3] IN
-   q[1] * 10000 + q[2] * 1000 + sz[1] * 100 + (IF Len(sz) >= 2 THEN sz[2] * 10 ELSE 0)
-   + (IF Len(sz) >= 3 THEN sz[3] ELSE 0)
+CodeOfReq(q) == LET sz == q[3]
+                    dg(x) == IF x = 0 THEN 9 ELSE x      \* a zero-length range is digit 9
+                IN q[1] * 10000 + q[2] * 1000 + dg(sz[1]) * 100
+                   + (IF Len(sz) >= 2 THEN dg(sz[2]) * 10 ELSE 0) + (IF Len(sz) >= 3 THEN dg(sz[3]) ELSE 0)
 BeginOK(e) == /\ e[3] \in Capacities /\ e[4] \in Budgets
               /\ {CodeOfReq(e[5][j]) : j \in 1..Len(e[5])} = ReqCodes
 ResetQ == /\ rstate' = [r \in ReqIds |-> "new"]
@@ -125,7 +128,11 @@ ConcStep(e) ==
                  LET i == <<e[2], e[3]>> IN
                  IF i \in Iops /\ PopGuard(i)
                  THEN /\ PopEffect(i) /\ Accept(k)
+                      \* sc_zerobypass: admitted over budget by the priority rule after a request of
+                      \* zero bytes was consumed (its priority must have left priorities_in_flight)
                       /\ feat' = feat \cup (IF Size(i) > bytesAvail THEN {"sc_bypass"} ELSE {})
+                                      \cup (IF Size(i) > bytesAvail /\ "sc_zero" \in feat
+                                            THEN {"sc_zerobypass"} ELSE {})
                  ELSE Reject(k, IssueReason(i))
             [] k = "Idle" ->
                  IF Len(flight) # e[2] THEN Reject(k, "inflight-count")
@@ -145,10 +152,15 @@ ConcStep(e) ==
                  ELSE /\ ConsumeEffect(r) /\ bad' = bad /\ skip' = skip
                       /\ cnt' = Bump(Bump(cnt, k), e[3])
                       /\ feat' = feat \cup (IF e[3] = "err" THEN {"sc_cancel"} ELSE {})
+                                      \cup (IF ReqBytes(r) = 0 THEN {"sc_zero"} ELSE {})
                                       \cup (IF e[3] = "err" /\ \E i \in IopsOf(r) : istate[i] = "done"
                                             THEN {"sc_partial"} ELSE {})
             [] k = "Pending" ->
-                 IF e[2] \in ReqIds /\ rstate[e[2]] = "ready" THEN Reject(k, "ready-but-pending")
+                 \* (after an ambiguous silent step the model may be ahead of the implementation for a
+                 \* request that has zero-byte iops: then "pending" is not judged)
+                 IF e[2] \in ReqIds /\ rstate[e[2]] = "ready"
+                    /\ ~("sc_fuzzy" \in feat /\ \E i \in IopsOf(e[2]) : Size(i) = 0)
+                 THEN Reject(k, "ready-but-pending")
                  ELSE KeepQ /\ Accept(k) /\ UNCHANGED feat
             [] k = "Close" ->
                  IF CloseGuard THEN CloseEffect /\ Accept(k) /\ feat' = feat \cup {"sc_close"}
@@ -170,7 +182,7 @@ Init0 == /\ Init
          /\ l = 1 /\ bad = <<>> /\ cnt = [k \in Keys |-> 0] /\ skip = FALSE /\ scn = 0
          /\ maxIopV = 0 /\ feat = {} /\ diff = <<>>
 
-TraceNext ==
+ConsumeEvent ==
   /\ l <= N /\ l' = l + 1
   /\ UNCHANGED <<hist, case>>
   /\ LET e == Rec[l] IN
@@ -185,9 +197,25 @@ TraceNext ==
           /\ KeepQ /\ UNCHANGED <<cap, bud, skip, scn, feat, maxIopV, diff>> /\ cnt' = Bump(cnt, "end")
           /\ IF e[2] = cnt["req"] THEN bad' = bad ELSE Flag("end", "count-mismatch")
      ELSE /\ UNCHANGED <<maxIopV, diff>> /\ ConcStep(e)
+\* Zero-byte iops never reach the driver's object store.  The implementation is quiescent when an
+\* event other than those produced by the store is recorded, so every zero-byte iop the queue could
+\* pop has been popped and answered by then: the model takes these steps (one TLC step each, the
+\* line counter stands still) before it consumes the next event.  The choice is deterministic.
+\* If a zero-byte iop is taken while another task of the same priority is not deliverable, the
+\* heap may in fact have that other task on top: the scenario is marked "sc_fuzzy".
+SilentIops == {i \in Iops : SilentGuard(i)}
+SilentNow == /\ l <= N /\ ~skip /\ Rec[l][1] \notin {"Begin", "univ", "req", "end"}
+             /\ SilentIops # {}
+SilentStep == LET i == CHOOSE x \in SilentIops : TRUE IN
+   /\ SilentEffect(i)
+   /\ UNCHANGED <<cap, bud, hist, case, l, bad, skip, scn, maxIopV, diff>>
+   /\ cnt' = Bump(cnt, "Silent")
+   /\ feat' = feat \cup (IF StrictEnabled THEN {} ELSE {"sc_fuzzy"})
+TraceNext == IF SilentNow THEN SilentStep ELSE ConsumeEvent
 TraceSpec == Init0 /\ [][TraceNext]_tvars
 
 Report == (l = N + 1) =>
    PrintT(<<"REPORT", ToJson([events |-> N, bad |-> bad, counts |-> cnt, diff |-> diff])>>)
-TraceAccepted == TLCGet("stats").diameter = N + 1
+\* one path; every line consumed (silent steps make it longer than the trace)
+TraceAccepted == TLCGet("stats").diameter >= N + 1
 =============================================================================
